@@ -724,4 +724,56 @@ theorem nrm_dot_fwd (P : Plane) (sbs : Rat) (p : V3) :
   simp only [Plane.fwd, Aff.apply, M3.mulVec, V3.smul, V3.add, Plane.nrm, V3.cross, V3.dot]
   linear_combination (x * sc) * h1 + (y * sr) * h2
 
+/-! ## closest orientation of an arbitrary matrix -/
+
+theorem argsortKeys3 (a b c : Rat) :
+    argsortKeys [(0, a), (1, b), (2, c)] ∈ [[0, 1, 2], [0, 2, 1], [1, 0, 2], [1, 2, 0], [2, 0, 1], [2, 1, 0]] := by
+  simp only [argsortKeys, List.foldr, insertByKey]
+  by_cases h1 : b ≤ c <;> by_cases h2 : a ≤ b <;> by_cases h3 : a ≤ c <;>
+    simp [insertByKey, h1, h2, h3]
+theorem chooseAxis_nil (v : V3) : chooseAxis v [] < 3 := by
+  unfold chooseAxis
+  have h := argsortKeys3 (-rabs v.x) (-rabs v.y) (-rabs v.z)
+  simp only [List.mem_cons, List.not_mem_nil, or_false] at h
+  rcases h with h | h | h | h | h | h <;> simp [h]
+theorem chooseAxis_one (v : V3) (i0 : Nat) (h0 : i0 < 3) : chooseAxis v [i0] < 3 ∧ chooseAxis v [i0] ≠ i0 := by
+  unfold chooseAxis
+  have h := argsortKeys3 (-rabs v.x) (-rabs v.y) (-rabs v.z)
+  simp only [List.mem_cons, List.not_mem_nil, or_false] at h
+  obtain rfl | rfl | rfl : i0 = 0 ∨ i0 = 1 ∨ i0 = 2 := by omega
+  all_goals (rcases h with h | h | h | h | h | h <;> simp [h, List.filter])
+theorem chooseAxis_two (v : V3) (i0 i1 : Nat) (h0 : i0 < 3) (h1 : i1 < 3) (hne : i0 ≠ i1) :
+    chooseAxis v [i0, i1] < 3 ∧ chooseAxis v [i0, i1] ≠ i0 ∧ chooseAxis v [i0, i1] ≠ i1 := by
+  unfold chooseAxis
+  have h := argsortKeys3 (-rabs v.x) (-rabs v.y) (-rabs v.z)
+  simp only [List.mem_cons, List.not_mem_nil, or_false] at h
+  obtain rfl | rfl | rfl : i0 = 0 ∨ i0 = 1 ∨ i0 = 2 := by omega
+  all_goals (obtain rfl | rfl | rfl : i1 = 0 ∨ i1 = 1 ∨ i1 = 2 := by omega)
+  all_goals first
+    | exact absurd rfl hne
+    | (rcases h with h | h | h | h | h | h <;> simp [h, List.filter])
+
+/-- the letter chosen for reference axis `i` is the positive or the negative letter of that axis, and its LPS
+unit vector has a non-negative component of the column along it -/
+theorem letterFor_spec (v : V3) (i : Nat) (hi : i < 3) :
+    ∃ c, letterFor v i = .ok c ∧ (Gen.posDirections[i]? = some c ∨ Gen.negDirections[i]? = some c) ∧
+      0 ≤ (letterVec c).dot v := by
+  obtain ⟨x, y, z⟩ := v
+  obtain rfl | rfl | rfl : i = 0 ∨ i = 1 ∨ i = 2 := by omega
+  · by_cases h : x > 0
+    · exact ⟨'L', by simp [letterFor, V3.get, h, Gen.posDirections], by simp [Gen.posDirections],
+        by simp [letterVec, V3.dot]; linarith⟩
+    · exact ⟨'R', by simp [letterFor, V3.get, h, Gen.negDirections], by simp [Gen.negDirections],
+        by simp [letterVec, V3.dot]; linarith⟩
+  · by_cases h : y > 0
+    · exact ⟨'P', by simp [letterFor, V3.get, h, Gen.posDirections], by simp [Gen.posDirections],
+        by simp [letterVec, V3.dot]; linarith⟩
+    · exact ⟨'A', by simp [letterFor, V3.get, h, Gen.negDirections], by simp [Gen.negDirections],
+        by simp [letterVec, V3.dot]; linarith⟩
+  · by_cases h : z > 0
+    · exact ⟨'H', by simp [letterFor, V3.get, h, Gen.posDirections], by simp [Gen.posDirections],
+        by simp [letterVec, V3.dot]; linarith⟩
+    · exact ⟨'F', by simp [letterFor, V3.get, h, Gen.negDirections], by simp [Gen.negDirections],
+        by simp [letterVec, V3.dot]; linarith⟩
+
 end HdVerif.Affine
